@@ -549,6 +549,71 @@ def rule_header_context(ctx, R="C14/header-context"):
     ctx.floor(R, "ModuleReader constructions", n, 1)
 
 
+def rule_note_walk(ctx, R="C14/note-walk"):
+    """`the build id equals the GNU build-id note`: the notes of a segment or section are walked the way its own header lays them
+    out.  find_build_id_note reads (offset, size) as given, walks that buffer from its first byte to `size`, pads entries by the
+    alignment it was given (not by something it makes up: a 64-bit image whose notes are 4-aligned is the common case) and decodes
+    them with the image's own context; each caller hands it the size and alignment fields of the header whose location it passes."""
+    b = ctx.body(R, MR + "::ModuleReader::find_build_id_note")
+    if b is None:
+        return
+    o = Origin(b)
+    its = []
+    for bi, blk in enumerate(b.blocks):
+        for si, st in enumerate(blk["stmts"]):
+            if st["k"] == "assign" and st["r"]["k"] == "agg" and norm(st["r"].get("adt") or "").endswith("note::NoteDataIterator"):
+                its.append((bi, si, strip(o._rvalue(st["r"], (bi, si), 0))))
+    ctx.floor(R, "note iterators in find_build_id_note", len(its), 1)
+    roles = None
+    for bi, si, e in its:
+        f = dict(e[3])
+        data = strip(f.get("data", ("?",)))
+        while data[0] in ("okval", "ref", "deref"):
+            data = strip(data[1])
+        okd = data[0] == "call" and data[1].endswith("ProcessMemory::read") and strip(data[2][0]) == ("field", ("param", 1), "module_memory") \
+            and core(data[2][1])[0] == "param" and core(data[2][2])[0] == "param"
+        p_off, p_size = (core(data[2][1]), core(data[2][2])) if okd else (None, None)
+        ctx.check(okd, R, "reads-given-window", b.where(bi, si), "the notes are the bytes read at the (offset, size) the caller gave", "the note buffer is %s" % show(f.get("data"))[:100])
+        ctx.check(okd and core(f.get("size")) == p_size and core(f.get("offset")) == ("const", 0, "usize"), R, "walks-whole-buffer", b.where(bi, si),
+                  "the walk starts at the first byte of the buffer and ends at the given size", "the walk covers offset %s .. %s" % (show(f.get("offset"))[:40], show(f.get("size"))[:40]))
+        cx = strip(f.get("ctx", ("?",)))
+        al = core(cx[1][0]) if cx[0] == "tuple" and len(cx[1]) == 2 else ("?",)
+        oka = al[0] == "param" and al not in (p_off, p_size, ("param", 1))
+        ctx.check(oka, R, "alignment-as-given", b.where(bi, si), "entries are padded by the alignment the caller passes on from the header",
+                  "entries are padded by %s, not by an alignment handed on from the segment/section header: a 64-bit image with 4-aligned notes (or the reverse) is walked out of step and the build-id note behind another note is missed" % show(al)[:80])
+        okc = cx[0] == "tuple" and len(cx[1]) == 2 and strip(cx[1][1]) == ("field", ("param", 1), "context")
+        ctx.check(okc, R, "image-context", b.where(bi, si), "note headers are decoded with the image's own class and byte order", "note headers are decoded with %s" % (show(cx[1][1])[:60] if cx[0] == "tuple" and len(cx[1]) == 2 else show(cx)[:60]))
+        if okd and oka:
+            roles = (p_off[1], p_size[1], al[1])
+    if roles is None:
+        return
+    WANT = {"build_id_from_program_headers": ("p_filesz", "p_align", None), "build_id_from_section": ("sh_size", "sh_addralign", "sh_offset")}
+    n = 0
+    for body in ctx.prog.bodies:
+        for bi, t in body.calls(lambda c: (c.short or "").endswith("ModuleReader::find_build_id_note")):
+            n += 1
+            fn = body.short.split("::{closure")[0].split("::")[-1]
+            bo = Origin(body)
+            a = bo.call_args(bi)
+            want = WANT.get(fn)
+            if want is None:
+                ctx.unproven(R, ("caller", fn), body.where(bi), "unreviewed caller of find_build_id_note")
+                continue
+
+            def fld(e):
+                e = core(e)
+                return (e[2], nosite(strip(e[1]))) if e[0] == "field" else (None, None)
+            sz, szb = fld(a[roles[1] - 1])
+            al, alb = fld(a[roles[2] - 1])
+            ok = sz == want[0] and al == want[1] and szb == alb
+            if want[2]:
+                of, ofb = fld(a[roles[0] - 1])
+                ok = ok and of == want[2] and ofb == szb
+            ctx.check(ok, R, ("caller", fn), body.where(bi), "%s hands on %s and %s of the header it locates the notes with" % (fn, want[0], want[1]),
+                      "%s passes size %s / alignment %s (expected %s / %s of one header)" % (fn, show(a[roles[1] - 1])[-40:], show(a[roles[2] - 1])[-40:], want[0], want[1]))
+    ctx.floor(R, "callers of find_build_id_note", n, 2)
+
+
 def rule_process_read_verbatim(ctx, R="C14/module-read-verbatim"):
     """every decoder above it assumes that ProcessMemory::read(offset, length) returns the bytes [offset, offset+length) of the module or
     an error: the Process arm asks the reader for exactly (start_address + offset, length) and the Slice arm takes exactly
@@ -587,6 +652,7 @@ def rule_process_read_verbatim(ctx, R="C14/module-read-verbatim"):
 def run(ctx):
     rule_process_read_verbatim(ctx)
     rule_header_context(ctx)
+    rule_note_walk(ctx)
     rule_dynamic_entries(ctx)
     rule_strtab_window(ctx)
     from rules import preds
